@@ -67,6 +67,12 @@ func genC01(r *rand.Rand, big bool) c01Case {
 		if k.MaxChunk == 1 && sumInts(s.ClientWrites)+sumInts(s.ServerWrites) > 60000 {
 			s.ClientWrites, s.ServerWrites = []int{1, 1024, 1025}, []int{0, 3000}
 		}
+		if s.MaxRead == 1 && sumInts(s.ClientWrites)+sumInts(s.ServerWrites) > 400000 {
+			// one Read call per byte: multi-MiB volumes take longer than the time limit on a loaded
+			// machine (thorough run at load 75: 3.4 MB, limit 4m28 — a false stall). One-byte reads
+			// keep up to 400 kB; the multi-MiB writes are read 13 bytes at a time.
+			s.MaxRead = 13
+		}
 		k.Scripts = append(k.Scripts, s)
 	}
 	return k
